@@ -153,6 +153,44 @@ class Model:
             self._index(m)
         for c in self.classes.values():
             c.bases = [self.resolve(c.module, b) or ast.unparse(b) for b in c.node.bases]
+        self._positionalise_calls()
+
+    def _positionalise_calls(self):
+        """Canonical argument form (R-2): for calls that resolve to a package function, keyword arguments naming the
+        leading positional parameters are moved into positional position, in parameter order."""
+        pseudo = []
+        for mod in self.modules.values():
+            top = ast.FunctionDef(name='<module>', args=ast.arguments(posonlyargs=[], args=[], kwonlyargs=[], kw_defaults=[], defaults=[]),
+                                  body=[s for s in mod.tree.body if not isinstance(s, (ast.FunctionDef, ast.AsyncFunctionDef, ast.ClassDef))] or [ast.Pass()],
+                                  decorator_list=[], lineno=1)
+            pseudo.append(FuncInfo(f'{mod.name}.<module>', top, mod))
+        for fi in list(self.functions.values()) + pseudo:
+            for call in [n for n in ast.walk(fi.node) if isinstance(n, ast.Call)]:
+                if not call.keywords or any(isinstance(a, ast.Starred) for a in call.args):
+                    continue
+                r = self.resolve_call(fi, call)
+                target = self.functions.get(r)
+                if target is None and r in self.classes and '__init__' in self.classes[r].methods:
+                    target = self.classes[r].methods['__init__']
+                if target is None:
+                    continue
+                a = target.node.args
+                if a.posonlyargs:
+                    continue
+                params = [x.arg for x in a.args]
+                if target.cls is not None and params and params[0] in ('self', 'cls') and not any(
+                        ast.unparse(d) == 'staticmethod' for d in target.decorators):
+                    params = params[1:]
+                kws = {k.arg: k for k in call.keywords if k.arg is not None}
+                n = len(call.args)
+                moved = False
+                while n < len(params) and params[n] in kws:
+                    call.args.append(kws[params[n]].value)
+                    call.keywords.remove(kws[params[n]])
+                    n += 1
+                    moved = True
+                if moved:
+                    ast.fix_missing_locations(call)
 
     def _index(self, m):
         pkg = m.package.replace(':pxd', '')
